@@ -239,3 +239,202 @@ Proof.
     unfold SwitchInv, Shape. rewrite !G by discriminate. cbn -[fs_get]. rewrite N.eqb_refl. cbn -[fs_get].
     change ([NRsync; NTmp serial]) with (tmp_dir serial). rewrite Hd. auto.
 Qed.
+
+(** Operations of the files phase act at or below rsync/tmp-<serial> (or are the failure marker). *)
+Lemma in_file_ops base t o op : In op (file_ops base t o) ->
+  op = OFail \/ exists p c, (op = OMkParents p \/ op = OCreateFile p \/ op = OWrite p c) /\ under t p = true /\ (t <> [] -> p <> []).
+Proof.
+  induction o as [|[k ob] o IH]; [intros []|]. cbn [file_ops].
+  destruct (rel_of base k) as [r|]; [|intros [<-|[]]; left; reflexivity].
+  intros Hin. apply in_app_iff in Hin. destruct Hin as [Hin|Hin]; [|apply IH; exact Hin].
+  right. exists (t ++ r), (CData (DObj (o_content ob))).
+  split; [|split; [apply under_app|intros Ht; destruct t; [congruence|discriminate]]].
+  simpl in Hin. destruct Hin as [<-|[<-|[<-|[]]]]; auto.
+Qed.
+
+(** A crash anywhere in a write leaves rsync/current and rsync/old directories (or absent). *)
+Lemma cut_shape v f base serial o f1 :
+  Shape f -> reach (rsync_write_ops_v v f base serial o) f f1 -> Shape f1.
+Proof.
+  intros Hs Hr. rewrite ops_split in Hr. apply reach_app in Hr. destruct Hr as [Hr|[Hok Hr]].
+  - revert Hr. apply reach_inv; [|exact Hs].
+    intros op g g' Hin [Hc Ho] He.
+    assert (Fr : forall q, under q (tmp_dir serial) = false -> under (tmp_dir serial) q = false -> fs_get q g' = fs_get q g).
+    { intros q Hq1 Hq2. unfold files_phase in Hin. destruct Hin as [<-|Hin].
+      - rewrite exec_mkdir in He. eapply mkdir_all_frame; eassumption.
+      - destruct (in_file_ops _ _ _ _ Hin) as [->|[p [c [Hk [Hu Hp]]]]]; [rewrite exec_fail in He; discriminate|].
+        eapply save_frame_get; try eassumption; [apply Hp; discriminate|].
+        destruct (under q p) eqn:E; [|reflexivity]. apply under_spec in Hu. destruct Hu as [z ->].
+        apply under_prefix_cases in E. destruct E; congruence. }
+    split; rewrite Fr by reflexivity; assumption.
+  - destruct (run (files_phase base serial o) f) as [f2 ok] eqn:Ef. simpl in Hok, Hr. subst ok.
+    destruct (files_phase_run _ _ _ _ _ Ef) as [Ht [Fr _]].
+    assert (S2 : SwitchInv serial f2).
+    { split; [|left; exact Ht]. destruct Hs as [Hc Ho]. split; rewrite Fr by reflexivity; assumption. }
+    assert (S1 : SwitchInv serial f1).
+    { revert Hr. apply reach_inv; [|exact S2]. intros op g g' Hin Hg He. eapply switch_step; try eassumption. eapply in_switch; eassumption. }
+    apply S1.
+Qed.
+
+(** The repaired switch completes whenever current and old are directories or absent and the
+    temporary directory is in place. *)
+Lemma repaired_switch_ok serial f2 :
+  Shape f2 -> fs_get (tmp_dir serial) f2 = Some Dir ->
+  snd (run (switch_phase Repaired (fs_exists current_dir f2) (fs_exists old_dir f2) serial) f2) = true.
+Proof.
+  intros [Hcur Hold] Ht. unfold switch_phase, fs_exists.
+  assert (MV2 : forall g, fs_get (tmp_dir serial) g = Some Dir -> fs_get current_dir g = None ->
+            exists g', exec (ORename (tmp_dir serial) current_dir false) g = Some g' /\ fs_get old_dir g' = fs_get old_dir g).
+  { intros g H1 H2. destruct (op_rename_dir (tmp_dir serial) current_dir g) as [g' [E G]]; try discriminate; try reflexivity; try assumption.
+    exists g'. split; [exact E|]. rewrite G by discriminate. reflexivity. }
+  destruct Hcur as [Hc|Hc]; rewrite Hc; destruct Hold as [Ho|Ho]; rewrite Ho; cbn [app orb].
+  - destruct (MV2 f2 Ht Hc) as [g [E _]]. rewrite run_cons, E. reflexivity.
+  - destruct (MV2 f2 Ht Hc) as [g [E Go]]. rewrite run_cons, E.
+    destruct (op_remove_old g) as [g' [E' _]]; [rewrite Go; exact Ho|]. rewrite run_cons, E'. reflexivity.
+  - destruct (op_rename_dir current_dir old_dir f2) as [g1 [E1 G1]]; try discriminate; try reflexivity; try assumption.
+    rewrite run_cons, E1.
+    destruct (MV2 g1) as [g2 [E2 Go]].
+    { rewrite G1 by discriminate. cbn -[fs_get]. exact Ht. }
+    { rewrite G1 by discriminate. reflexivity. }
+    rewrite run_cons, E2.
+    destruct (op_remove_old g2) as [g3 [E3 _]].
+    { rewrite Go, G1 by discriminate. cbn -[fs_get]. exact Hc. }
+    rewrite run_cons, E3. reflexivity.
+  - destruct (op_remove_old f2 Ho) as [g0 [E0 G0]]. rewrite run_cons, E0.
+    destruct (op_rename_dir current_dir old_dir g0) as [g1 [E1 G1]]; try discriminate; try reflexivity.
+    { rewrite G0 by discriminate. cbn -[fs_get]. exact Hc. }
+    { rewrite G0 by discriminate. reflexivity. }
+    rewrite run_cons, E1.
+    destruct (MV2 g1) as [g2 [E2 Go]].
+    { rewrite G1 by discriminate. cbn -[fs_get]. rewrite G0 by discriminate. cbn -[fs_get]. exact Ht. }
+    { rewrite G1 by discriminate. reflexivity. }
+    rewrite run_cons, E2.
+    destruct (op_remove_old g2) as [g3 [E3 _]].
+    { rewrite Go, G1 by discriminate. cbn -[fs_get]. rewrite G0 by discriminate. cbn -[fs_get]. exact Hc. }
+    rewrite run_cons, E3. reflexivity.
+Qed.
+
+(** [rsync_recovers_after_cut]: with the repaired procedure an interrupted write never prevents
+    later writes. *)
+Theorem rsync_recovers_after_cut : rsync_never_stuck Repaired.
+Proof.
+  intros f base serial o n serial' o' Hs f1 Hfiles.
+  assert (S1 : Shape f1) by (eapply cut_shape; [exact Hs|exists n; reflexivity]).
+  rewrite ops_split, run_app. rewrite Hfiles.
+  destruct (run (files_phase base serial' o') f1) as [f2 ok] eqn:Ef. simpl in Hfiles. subst ok. cbn [fst].
+  destruct (files_phase_run _ _ _ _ _ Ef) as [Ht [Fr _]].
+  assert (Ec : fs_get current_dir f2 = fs_get current_dir f1) by (apply Fr; reflexivity).
+  assert (Eo : fs_get old_dir f2 = fs_get old_dir f1) by (apply Fr; reflexivity).
+  replace (fs_exists current_dir f1) with (fs_exists current_dir f2) by (unfold fs_exists; rewrite Ec; reflexivity).
+  replace (fs_exists old_dir f1) with (fs_exists old_dir f2) by (unfold fs_exists; rewrite Eo; reflexivity).
+  apply repaired_switch_ok; [|exact Ht].
+  destruct S1 as [A B]. split; [rewrite Ec; exact A|rewrite Eo; exact B].
+Qed.
+
+(** ** The tree after a successful write *)
+Lemma switch_moves_tmp v cur old serial f2 f' :
+  run (switch_phase v cur old serial) f2 = (f', true) ->
+  forall rel, fs_get (current_dir ++ rel) f' = fs_get (tmp_dir serial ++ rel) f2.
+Proof.
+  unfold switch_phase. intros H rel.
+  (* every operation before the second rename leaves the temporary directory alone, the second
+     rename moves it, the final removal leaves rsync/current alone *)
+  assert (Pre : forall ops g g', (forall op, In op ops -> op = ORemoveTree old_dir false \/ op = ORename current_dir old_dir false) ->
+            run ops g = (g', true) -> fs_get (tmp_dir serial ++ rel) g' = fs_get (tmp_dir serial ++ rel) g).
+  { induction ops as [|op ops IH]; intros g g' Hops Hr; [rewrite run_nil in Hr; inv Hr; reflexivity|].
+    assert (Hb : best_effort op = false) by (destruct (Hops op (or_introl eq_refl)) as [->| ->]; reflexivity).
+    destruct (run_ok_cons _ _ _ _ Hr Hb) as [g1 [E1 H1]].
+    rewrite (IH g1 g' (fun x Hx => Hops x (or_intror Hx)) H1).
+    destruct (Hops op (or_introl eq_refl)) as [->| ->].
+    - rewrite (exec_inv_remove_old _ _ E1) by discriminate. reflexivity.
+    - rewrite exec_rename in E1. rewrite (rename_get _ _ _ _ _ E1) by (try reflexivity; discriminate). reflexivity. }
+  set (A := if cur then _ else []) in H.
+  assert (HA : forall op, In op A -> op = ORemoveTree old_dir false \/ op = ORename current_dir old_dir false).
+  { unfold A. destruct cur; [|intros op []]. intros op Hin. apply in_app_iff in Hin. destruct Hin as [Hin|[<-|[]]]; [|auto].
+    destruct v; [destruct Hin|]. destruct old; [destruct Hin as [<-|[]]; auto|destruct Hin]. }
+  rewrite run_app in H. destruct (run A f2) as [g1 ok1] eqn:EA. cbn [fst snd] in H. destruct ok1; [|discriminate].
+  rewrite <- (Pre A f2 g1 HA EA).
+  cbn [app] in H. destruct (run_ok_cons _ _ _ _ H eq_refl) as [g2 [E2 H2]].
+  rewrite exec_rename in E2.
+  assert (G2 : fs_get (current_dir ++ rel) g2 = fs_get (tmp_dir serial ++ rel) g1).
+  { rewrite (rename_get _ _ _ _ _ E2) by (try reflexivity; discriminate). cbn -[fs_get]. reflexivity. }
+  rewrite <- G2.
+  destruct (cur || old).
+  - destruct (run_ok_cons _ _ _ _ H2 eq_refl) as [g3 [E3 H3]]. rewrite run_nil in H3. inv H3.
+    rewrite (exec_inv_remove_old _ _ E3) by discriminate. reflexivity.
+  - rewrite run_nil in H2. inv H2. reflexivity.
+Qed.
+
+(** [rsync_equals_snapshot_after_success]: after a successful write the files under
+    rsync/current are exactly the objects of the snapshot, each at the path of its URI relative to
+    the base URI - for both procedures, provided no earlier attempt left anything in
+    rsync/tmp-<serial>, different objects go to different files, and all are inside the base. *)
+Theorem rsync_equals_snapshot_after_success v f base serial o f' :
+  tmp_clean serial f = true -> RelInjective base o -> NoDupO o ->
+  run (rsync_write_ops_v v f base serial o) f = (f', true) ->
+  forall rel c, fs_file (current_dir ++ rel) f' = Some c <->
+                exists k ob, In (k, ob) o /\ rel_of base k = Some rel /\ c = CData (DObj (o_content ob)).
+Proof.
+  intros Hclean Hi Hn H rel c. rewrite ops_split, run_app in H.
+  destruct (run (files_phase base serial o) f) as [f2 ok] eqn:Ef. cbn [fst snd] in H. destruct ok; [|discriminate].
+  destruct (files_phase_run _ _ _ _ _ Ef) as [_ [_ Fc]].
+  unfold fs_file at 1. rewrite (switch_moves_tmp _ _ _ _ _ _ H rel). fold (fs_file (tmp_dir serial ++ rel) f2).
+  rewrite Fc. unfold fs_file at 1. rewrite (tmp_clean_none _ _ _ Hclean).
+  split.
+  - destruct (written base o rel) as [c0|] eqn:Ew; [|discriminate]. intros Hc; inv Hc.
+    destruct (written_some _ _ _ _ Ew) as [k [ob [H1 [H2 ->]]]]. exists k, ob. auto.
+  - intros [k [ob [H1 [H2 ->]]]]. rewrite (written_complete _ _ _ _ _ Hi Hn H1 H2). reflexivity.
+Qed.
+
+(** ** Witnesses *)
+Definition x_base : jail := mkJail 1 1 [].
+Definition x_uri (n : N) : uri := mkUri 0 1 0 1 0 [7; n].
+(** A served tree with one object. *)
+Definition x_fs0 : fs :=
+  [([NRsync], Dir); ([NRsync; NCurrent], Dir); ([NRsync; NCurrent; NSeg 7], Dir);
+   ([NRsync; NCurrent; NSeg 7; NSeg 1], File (CData (DObj 11)))].
+Definition x_objs1 : objects := [(x_uri 1, (12, 12))].
+Definition x_objs2 : objects := [(x_uri 1, (13, 13))].
+
+(** F11c: the pinned procedure, cut after the second rename (6 operations done, the removal of
+    rsync/old pending): the next write fails, and so does the one after it. *)
+Theorem rsync_interrupted_then_stuck : ~ rsync_never_stuck Pinned.
+Proof.
+  intros H. specialize (H x_fs0 x_base 5 x_objs1 6%nat 6 x_objs2).
+  assert (S : Shape x_fs0) by (split; [right|left]; reflexivity).
+  specialize (H S). cbv zeta in H. vm_compute in H. specialize (H eq_refl). discriminate.
+Qed.
+Example rsync_stays_stuck :
+  let f1 := fst (run (firstn 6 (rsync_write_ops_v Pinned x_fs0 x_base 5 x_objs1)) x_fs0) in
+  let f2 := fst (run (rsync_write_ops_v Pinned f1 x_base 6 x_objs2) f1) in
+  snd (run (rsync_write_ops_v Pinned f1 x_base 6 x_objs2) f1) = false
+  /\ snd (run (rsync_write_ops_v Pinned f2 x_base 7 x_objs2) f2) = false
+  /\ snd (run (rsync_write_ops_v Repaired f2 x_base 7 x_objs2) f2) = true.
+Proof. vm_compute. repeat split. Qed.
+Example rsync_recovers_after_cut_nonvacuous :
+  Shape x_fs0 /\ snd (run (files_phase x_base 6 x_objs2)
+                        (fst (run (firstn 6 (rsync_write_ops_v Repaired x_fs0 x_base 5 x_objs1)) x_fs0))) = true.
+Proof. split; [split; [right|left]; reflexivity|vm_compute; reflexivity]. Qed.
+
+(** Candidate F11f: what an earlier attempt for the same serial left in rsync/tmp-<serial> ends
+    up in rsync/current. *)
+Definition x_fs_stale : fs := ([NRsync; NTmp 5], Dir) :: ([NRsync; NTmp 5; NSeg 9], File (CData (DObj 99))) :: x_fs0.
+Theorem rsync_equals_snapshot_unconditional_refuted v : ~ rsync_equals_snapshot_unconditional v.
+Proof.
+  intros H.
+  destruct (run (rsync_write_ops_v v x_fs_stale x_base 5 x_objs1) x_fs_stale) as [f' ok] eqn:E.
+  assert (Hok : ok = true) by (destruct v; vm_compute in E; inv E; reflexivity). subst ok.
+  assert (A : AllInside x_base x_objs1) by (intros k [<-|[]]; discriminate).
+  assert (I : RelInjective x_base x_objs1) by (intros k k' rel [<-|[]] [<-|[]] _ _; reflexivity).
+  assert (Nd : NoDupO x_objs1) by (repeat constructor; intros []).
+  specialize (H x_fs_stale x_base 5 x_objs1 f' A I Nd E [NSeg 9] (CData (DObj 99))).
+  assert (L : fs_file (current_dir ++ [NSeg 9]) f' = Some (CData (DObj 99))) by (destruct v; vm_compute in E; inv E; reflexivity).
+  apply H in L. destruct L as [k [ob [[Hin|[]] [Hr _]]]]. inv Hin. vm_compute in Hr. discriminate.
+Qed.
+Example rsync_equals_snapshot_nonvacuous :
+  tmp_clean 5 x_fs0 = true /\ RelInjective x_base x_objs1 /\ NoDupO x_objs1
+  /\ snd (run (rsync_write_ops_v Repaired x_fs0 x_base 5 x_objs1) x_fs0) = true.
+Proof.
+  split; [reflexivity|]. split; [intros k k' rel [<-|[]] [<-|[]] _ _; reflexivity|].
+  split; [repeat constructor; intros []|vm_compute; reflexivity].
+Qed.
